@@ -7,6 +7,7 @@ import (
 	"encoding/binary"
 	"fmt"
 	"math/big"
+	"strings"
 	"testing"
 	"time"
 
@@ -24,8 +25,8 @@ import (
 
 // TxMut: a valid message of one type, one structural mutation, optional byte-level mutation, one delivery mode.
 type TxMut struct {
-	Base    int    `json:"base"`     // message type index
-	Mut     int    `json:"mut"`      // structural mutation index (0 = none)
+	Base    int    `json:"base"` // message type index
+	Mut     int    `json:"mut"`  // structural mutation index (0 = none)
 	Arg     int    `json:"arg"`
 	ByteMut int    `json:"byte_mut"` // 0 none, 1 truncate, 2 flip a bit, 3 append garbage, 4 random bytes, 5 repeat a chunk
 	ByteArg uint64 `json:"byte_arg"`
@@ -584,10 +585,10 @@ type ReqList struct {
 }
 
 type ReqCase struct {
-	Lock   LockCase    `json:"lock"`  // a short locking history first
-	Lists  [][]ReqList `json:"lists"` // per block
-	Valid  []bool      `json:"valid"` // per block: build every list so that it is individually acceptable (the whole message applies)
-	Mask   bool        `json:"mask"`  // mask amounts to 128 bits (multi-block regime)
+	Lock  LockCase    `json:"lock"`  // a short locking history first
+	Lists [][]ReqList `json:"lists"` // per block
+	Valid []bool      `json:"valid"` // per block: build every list so that it is individually acceptable (the whole message applies)
+	Mask  bool        `json:"mask"`  // mask amounts to 128 bits (multi-block regime)
 }
 
 var reqRecordLen = map[byte]int{
@@ -820,3 +821,23 @@ func TestC19_RequestLists(t *testing.T) {
 var _ = bytes.Equal
 var _ = abci.ResponseProcessProposal_ACCEPT
 var _ = common.Address{}
+
+// Request lists at states that need a history (jailed, exiting, tombstoned validators, matured unlocks, weight and
+// threshold changes): the locking world of C11-C15, with only "block processing never fails" asserted.
+func TestC19_LockingHistories(t *testing.T) {
+	RunProp(t, Prop[LockCase]{
+		ID: "C19", Name: "locking-histories", Quick: 480, Thor: 8000,
+		Gen: genLockCase("C13", 30),
+		Run: func(c LockCase) Outcome {
+			o := runLocking(c, "C13", func(w *lockWorld, o *Outcome) *Failure { return nil }, nil)
+			if o.Fail != nil && strings.HasPrefix(o.Fail.Signature, "consensus-engine-rejects-updates") {
+				// what CometBFT accepts as a validator update is C13's subject
+				o.Classes = append(o.Classes, "inner-oracle-failed")
+				o.Fail = nil
+			}
+			o.NonTrivial = o.Evals >= 4
+			return o
+		},
+		Rule: "locking-world histories (create/lock/unlock/claim/grant/weight/threshold requests incl. failing ones, absences, evidence, time jumps, restarts from the exported state, high initial heights): every FinalizeBlock must return without error, i.e. no request list makes begin-block, the block message or end-block fail at any reachable state; non-trivial = at least four blocks; evaluations count blocks",
+	})
+}
